@@ -352,6 +352,12 @@ def r15_4(run, model):
         if not absent:
             detail = "a pinned dependency that is not among the linked units is not rejected"
             continue
+        # no pin is exempted: nothing in the loop over the pins skips an iteration before the comparison
+        skips = [x for x in S.walk_no_closures(loop_node["body"] if loop_node["k"] == "For" else loop_node)
+                 if x["k"] in ("Continue", "Break") and (x["sp"][0], x["sp"][1]) < (n["sp"][0], n["sp"][1])]
+        if skips:
+            detail = f"a `{skips[0]['k'].lower()}` at line {skips[0]['sp'][0]} lets some pins pass without being compared"
+            continue
         # dominance: the loop statement precedes every apply_to / topo_sort / mono call in the function body
         top = loop_node
         while par.parent(top) is not None and par.parent(top) is not f.body:
@@ -390,9 +396,17 @@ def r15_5(run, model):
                 m = re.match(r"^([A-Za-z_][A-Za-z0-9_]*)\.(interface_hash|exports|hir_interface)", t)
                 if m:
                     (src_vars if m.group(2) == "interface_hash" else used_vars).add(m.group(1))
-            ok = len(src_vars) == 1 and src_vars <= set(loaders) and used_vars <= src_vars and bool(used_vars)
+            # nothing else writes the pin table in this loop (extend/append from another unit's recorded pins would overwrite it)
+            pin_tables = set()
+            for c in pinned:
+                r = c["recv"]
+                if S.is_path(r):
+                    pin_tables.add(r["segs"][0])
+            other_writes = [c["method"] for c in S.walk(loop["body"]) if c["k"] == "MethodCall" and c["method"] in ("extend", "append", "entry", "insert")
+                            and S.is_path(c["recv"]) and c["recv"]["segs"][0] in pin_tables and c not in pinned]
+            ok = len(src_vars) == 1 and src_vars <= set(loaders) and used_vars <= src_vars and bool(used_vars) and not other_writes
             run.ob("R15.5", f"{f.qual}|pinned hash source", ok, site(f.file, loop["sp"]),
-                   f"hash taken from {sorted(src_vars)}, exports/HIR taken from {sorted(used_vars)}, loaded units {sorted(loaders)}",
+                   f"hash taken from {sorted(src_vars)}, exports/HIR taken from {sorted(used_vars)}, loaded units {sorted(loaders)}; other writes to the pin table: {other_writes or 'none'}",
                    witness="the recorded pin describes a different interface than the one the package was checked against")
     run.floor("dependency pinning loops", n, 2)
 
